@@ -309,6 +309,40 @@ def chains(ctx, F):
                         problems.append('chain link not attached to the running chain node')
             else:
                 problems.append('non-binary label %s' % fmt(label))
+        # every row contributes a link: a chain link inside a loop is attached on every iteration path
+        for bb, a, t in adds:
+            if a[2] == ('const', 1) and not spec['inside'](a[3]):
+                for h in cfg.loop_headers():
+                    if isinstance(h, int) and bb in cfg.loop_of(h):
+                        some = None
+                        for sb, bl in b.live_blocks():
+                            if bl['term']['k'] == 'switch' and sb in cfg.loop_of(h):
+                                d = R.switch_discr(sb)
+                                if d and d[0] == 'discr' and is_call(d[1], 'Iterator::next'):
+                                    for e in cfg.edge_nodes(sb):
+                                        if cfg.edge_label[e] == ('sw', (1,)):
+                                            some = e
+                        if some is not None and cfg.reaches(some, h, avoid=[bb]):
+                            problems.append('a constraint can be skipped: an iteration of the chain loop reaches the next one without attaching its decision')
+        if q == 'inf_norm':
+            maps = [(bb, R.call_args(bb)) for bb, t in b.calls_to('Option::map')]
+            want = {'minimum': ('neg',), 'maximum': ('pos',)}
+            seen = {}
+            for bb, a in maps:
+                if a[0][0] == 'param' and a[0][1] in want and a[1][0] == 'closure':
+                    cb, rets = prune.closure_ret(F, a[1])
+                    r = rets[0] if rets else None
+                    if r and is_call(r, 'AffFuncBase::from_mats'):
+                        m, bi = r[2]
+                        neg_m = is_call(m, 'Neg::neg') and is_call(m[2][0], 'ArrayBase::eye')
+                        pos_m = is_call(m, 'ArrayBase::eye')
+                        neg_b = is_call(bi, 'Neg::neg') and is_call(bi[2][0], 'ArrayBase::from_elem') and bi[2][0][2][1][0] == 'param'
+                        pos_b = is_call(bi, 'ArrayBase::from_elem') and bi[2][1][0] == 'param'
+                        seen[a[0][1]] = 'neg' if (neg_m and neg_b) else ('pos' if (pos_m and pos_b) else 'other')
+                else:
+                    problems.append('a bound is derived from something else than the corresponding parameter: %s' % fmt(a[0])[:60])
+            if seen != {'minimum': 'neg', 'maximum': 'pos'}:
+                problems.append('bounds are not {minimum: -x_i <= -min for all i, maximum: x_i <= max for all i} taken from their own parameters: %s' % seen)
         if final_inside != 1:
             problems.append('the chain does not end in exactly one inside terminal on label 1 (found %d)' % final_inside)
         if q == 'class_characterization':
